@@ -83,7 +83,9 @@ def props_file(prop):
 def theorem_names(prop):
     """full names of the property theorems declared in Props/<prop>.lean"""
     names, ns = [], []
-    for line in open(props_file(prop)):
+    src = open(props_file(prop)).read()
+    src = re.sub(r"/-.*?-/", lambda m: "\n" * m.group(0).count("\n"), src, flags=re.S)
+    for line in src.split("\n"):
         m = re.match(r"\s*namespace\s+(\S+)", line)
         if m:
             ns.append(m.group(1))
